@@ -4,11 +4,17 @@ from harness import gen_coro, spec_coro
 MODEL = 'coro'
 RULE = ('seeded random schedules: 1-6 generator scripts of 2-14 yields (waits from {None, 0, -1/8, -1, '
         '1/8 .. 4 s}, in units of 1/8 s), started before or between frames, 20-60 process calls with dt '
-        'from {0, 1/8 .. 2 s} (uneven); plus the hand-written corpus.  Non-trivial: at least one coroutine '
+        'from {0, 1/8 .. 2 s} (uneven); plus families with lifecycle traffic, observed through the same '
+        'step log: 2-4 coroutines sleeping to the SAME deadline with kill+start of waiting ones, bodies '
+        'that kill themselves with others queued behind them, bodies that leave with an exception '
+        '(Quit / SwitchWorld / errors) after which the caller keeps calling process(), random start/kill '
+        'histories; plus the hand-written corpus.  Non-trivial: at least one coroutine '
         'woke from a positive wait; distinct by hash of the scenario text.')
 ASSUMPTIONS = ['waits and dt are multiples of 1/8 s (exactly representable, as the property stipulates)',
-               'generator bodies terminate, do not raise, do not call process() themselves and yield '
-               'None or numbers']
+               'generator bodies terminate, do not call process() themselves and yield None or numbers; '
+               'a body may leave with an exception: that call is excused for the coroutines still owed a '
+               'step; from the next call on everybody runnable is owed exactly one step again, in the order '
+               'kept so far (D31, fixed by 79d5dfb)']
 TIE = ('correspondence check: the Lean model lean/DesperModel/Coro.lean and the real CoroutineProcessor '
        'run the same generated schedules (real generator objects interpreting the scripts); compared: '
        'which bodies execute in which process call and in which order')
